@@ -147,7 +147,7 @@ def free_port():
 class Session:
     """One fzf process inside its own tmux server, driven through --listen."""
 
-    def __init__(self, fzf, args, lines, tmp, width=80, height=24, env=None, name=None, input_cmd=None, wrap=None):
+    def __init__(self, fzf, args, lines, tmp, width=80, height=24, env=None, name=None, input_cmd=None, wrap=None, extra_args_fn=None, prepare=None):
         self.sock = 'verif-%d-%s' % (os.getpid(), name or hex(random.getrandbits(32))[2:])
         self.port = free_port()
         self.tmp = tmp
@@ -158,6 +158,10 @@ class Session:
         self.inp = os.path.join(self.dir, 'input')
         with open(self.inp, 'wb') as f:
             f.write(b''.join(l + b'\n' for l in lines))
+        if extra_args_fn:
+            args = list(args) + list(extra_args_fn(self.dir))
+        if prepare:
+            prepare(self.dir)
         quoted = ' '.join("'" + a.replace("'", "'\\''") + "'" for a in [fzf, '--listen', 'localhost:%d' % self.port] + list(args))
         envs = ' '.join("%s='%s'" % (k, v.replace("'", "'\\''")) for k, v in (env or {}).items())
         src = input_cmd or ("cat '%s'" % self.inp)
@@ -311,7 +315,7 @@ DRIVERS = {'pipe': drv_pipe, 'race': drv_race}
 
 def run(name, tier, seed, ctx):
     if name not in DRIVERS:
-        import procs_tmux, procs_conv, procs_prev, procs_screen, procs_robust  # register the interactive drivers
+        import procs_tmux, procs_conv, procs_prev, procs_screen, procs_robust, procs_hist  # register the interactive drivers
     return DRIVERS[name](tier, seed, ctx)
 
 
@@ -330,6 +334,9 @@ def replay(rp, ctx):
     if pr.get('kind') == 'tmux-preview':
         import procs_prev
         return procs_prev.replay(rp, ctx)
+    if pr.get('kind') == 'tmux-hist':
+        import procs_hist
+        return procs_hist.replay(rp, ctx)
     if pr.get('kind') == 'tmux-robust':
         import procs_robust
         return procs_robust.replay(rp, ctx)
